@@ -40,7 +40,12 @@ def wire_params(p: Dict[str, Any]) -> Optional[Any]:
 def build_error(e: Dict[str, Any]) -> JsonRpcError:
     cls = he.BY_NAME[e['cls']]
     data = UNSET if 'absent' in e['data'] else e['data']['value']
-    return cls(code=e['code'], message=e['message'], data=data)
+    err = cls(code=e['code'], message=e['message'], data=data)
+    if e.get('attach'):
+        # what applications do with exception objects: hang their own attributes on them, add notes (none of it is wire content)
+        err.retry_after = 30
+        err.add_note('raised by the billing backend')
+    return err
 
 
 def wire_error(e: Dict[str, Any]) -> Dict[str, Any]:
@@ -110,7 +115,8 @@ def error_strategy():
     typed_explicit = st.builds(
         lambda n, m, d: {'cls': n, 'code': he.BY_NAME[n].code, 'message': m, 'data': d}, st.sampled_from(he.TYPED), st.one_of(st.none(), message), data,
     )
-    return st.one_of(base, base, typed_default, typed_explicit)
+    plain = st.one_of(base, base, typed_default, typed_explicit)
+    return st.one_of(plain, plain, plain, plain.map(lambda e: {**e, 'attach': True}))
 
 
 def request_strategy(ids=None):
@@ -237,6 +243,9 @@ class C05(Check):
             {'kind': 'late_class', 'code_kind': 'fresh', 'paths': ['error', 'response', 'batch']},
             {'kind': 'late_class', 'code_kind': 'builtin', 'paths': ['response']},
             {'kind': 'late_class', 'code_kind': 'application', 'paths': ['batch', 'error']},
+            {'kind': 'error', 'error': {'cls': 'Custom2001', 'code': None, 'message': None, 'data': {'absent': True}, 'attach': True}, 'error_cls': 'JsonRpcError'},
+            {'kind': 'response', 'response': {'id': 1, 'error': {'cls': 'JsonRpcError', 'code': 5, 'message': 'm', 'data': {'value': [1]}, 'attach': True}}, 'error_cls': 'JsonRpcError'},
+            {'kind': 'batch_error', 'error': {'cls': 'JsonRpcError', 'code': 5, 'message': 'm', 'data': {'absent': True}, 'attach': True}, 'error_cls': 'JsonRpcError'},
             {'kind': 'batch_request', 'requests': []},
             {'kind': 'batch_response', 'responses': [{'id': 1, 'error': {'cls': 'JsonRpcError', 'code': 12345, 'message': 'm', 'data': {'absent': True}}}], 'error_cls': 'PlainBase'},
             {'kind': 'batch_response', 'responses': [{'id': 1, 'error': {'cls': 'IndepA', 'code': None, 'message': None, 'data': {'absent': True}}}], 'error_cls': 'IndepBase'},
